@@ -204,7 +204,8 @@ def catalogue():
         "A": lambda: M.ConstraintKMeans(n_clusters=2, strategy="distance", random_state=0, n_init=2, max_iter=20),
         "B": lambda: M.ConstraintKMeans(n_clusters=3, strategy="gain", kmeans0=False, random_state=1,
                                         max_iter=10, n_init=2),
-        "C": lambda: M.ConstraintKMeans(n_clusters=3, strategy="gain", random_state=2, max_iter=10, n_init=1)},
+        "C": lambda: M.ConstraintKMeans(n_clusters=3, strategy="gain", random_state=2, max_iter=10, n_init=1),
+        "D": lambda: M.ConstraintKMeans(n_clusters=3, strategy="weights", random_state=0, n_init=2, max_iter=20)},
         strs={"strategy": ["distance", "gain"], "init": ["k-means++", "random"]})
     add("PiecewiseRegressor", "reg", {
         "A": lambda: M.PiecewiseRegressor("tree"),
@@ -225,7 +226,7 @@ def catalogue():
         "A": lambda: M.DecisionTreeLogisticRegression(max_depth=3),
         "B": lambda: M.DecisionTreeLogisticRegression(estimator=DTC(max_depth=1), fit_improve_algo="none", max_depth=2),
         "C": lambda: M.DecisionTreeLogisticRegression(max_depth=4, min_samples_leaf=1, fit_improve_algo="intercept_sort_always")},
-        strs={"fit_improve_algo": ["auto", "none", "intercept_sort"], "strategy": ["parallel"]})
+        strs={"fit_improve_algo": [None, "auto", "none", "intercept_sort"], "strategy": ["parallel"]})
     add("IntervalRegressor", "reg", {
         "A": lambda: M.IntervalRegressor(LinR(), n_estimators=3),
         "B": lambda: M.IntervalRegressor(DTR(max_depth=2), n_estimators=2, alpha=0.5)})
